@@ -20,6 +20,7 @@ means a check, a step or an operand is gone:
   set   .f <form>         a field named f is assigned a value of this form
   ord   A < B             procedure A is called before procedure B on every path that calls B
   grd   X <= [tests]      the rejection test / procedure call X is made under exactly these non-rejecting tests (each with the side taken)
+  arm   T::V -> <value>   a match on a workspace enum yields this call / aggregate (with cleaned argument forms) for variant V
 
 New atoms (added checks, added steps, new functions) are never an alarm. A function of the reference that no longer exists is looked for in
 its former callers (inlined) and a function that is new is attributed to its callers (extracted), with parameter leaves erased."""
@@ -180,7 +181,7 @@ def atoms(bodies, S=None):
 
 
 def _atoms(bodies, S):
-    out = {k: set() for k in ("call", "recv", "arg", "dec", "must", "mustq", "mustcall", "new", "fld", "set", "grd", "ord")}
+    out = {k: set() for k in ("call", "recv", "arg", "dec", "must", "mustq", "mustcall", "new", "fld", "set", "grd", "ord", "arm")}
     for b in bodies:
         try:
             logb = FP.log_region(b)
@@ -260,6 +261,17 @@ def _atoms(bodies, S):
                                 tag = " T!"
                             elif fe and not te:
                                 tag = " F!"
+                    except Exception:
+                        pass
+                # `arm`: what a match on a workspace enum yields for one variant (`TxStatus::Gap => TxVerifyEnv::new_proposed(header, 0)`): swapping the
+                # values of two arms keeps every other atom (the same calls with the same argument forms are still made somewhere in the function)
+                if hc[0] == "match" and not plumbing and hc[1] and not re.match(r"^(Option|Result|Ordering|ControlFlow|Poll|Cow|Entry)::", str(hc[1][0])):
+                    try:
+                        for lab in h[3]:
+                            if isinstance(lab, (tuple, list)) and lab and isinstance(lab[0], str) and lab[0].startswith(("call:", "agg:")):
+                                args = [clean(x) for x in lab[1:] if isinstance(x, (tuple, list))]
+                                if any(args) and not ERR_ADT.search(lab[0].split("::")[0].replace("agg:", "")):
+                                    out["arm"].add("%s -> %s" % (hc[1][0], _j([lab[0]] + [list(a_) for a_ in args])))
                     except Exception:
                         pass
                 a = core + tag
